@@ -121,6 +121,8 @@ type Node struct {
 	Panics  []string
 	Genesis types.AppState
 	Hashes  map[int64]string
+	// run once after the next BeginBlock of execReq (C10)
+	afterBeginOnce func()
 	lastVals []curVal
 	Stacks   []string
 }
